@@ -64,7 +64,7 @@ MAX_VIOL = 6
 
 def gen_cases(seed, tier):
     rng = np.random.default_rng([seed, 13])
-    n = 400 if tier == "quick" else 8000
+    n = 400 if tier == "quick" else 20000
     cases = []
     for i in range(n):
         npar = int(rng.choice([0, 1, 2, 3, 4, 5, 6], p=[0.04, 0.12, 0.2, 0.22, 0.18, 0.14, 0.1]))
